@@ -89,6 +89,7 @@ func (x *Exec) doCallVals(p *Path, site ssa.Instruction, cc *ssa.CallCommon, fnv
 	if p.dead {
 		return
 	}
+	x.lastCallArgs = append(append([]Val{}, args...), fnv)
 	rtypes := x.resultTypes(cc)
 	rtuple := cc.Signature().Results()
 	freshResults := func(hint string) []Val {
@@ -1529,6 +1530,24 @@ func (x *Exec) guardCheck(p *Path, a *Addr, write bool, site ssa.Instruction) {
 			x.lockCheck(p, a.TKey, smu, a.Obj, a.Field, true)
 		}
 	}
+	if write && len(tc.Invs) > 0 && !x.isFreshObj(p, a.Obj) && invMentions(tc)[a.Field] {
+		// encapsulation: the invariants are proved method by method, so only methods of the type may write the fields
+		// they mention (of an object the function did not create itself)
+		fn := p.top().fn
+		isMethod := false
+		if fn != nil && fn.Signature.Recv() != nil && len(fn.Params) > 0 {
+			if t2 := x.invType(fn.Params[0].Type()); t2 == tc {
+				isMethod = true
+			}
+		}
+		if !isMethod {
+			var props []string
+			for _, li := range tc.Invs {
+				props = append(props, li.C.Props...)
+			}
+			x.oblige(p, "guard", "inv_field_write:"+a.Field, "false", props, "write to "+shortTypeKey(a.TKey)+"."+a.Field+" outside the methods of the type: its invariants are proved method by method")
+		}
+	}
 	mu, ok := tc.Guarded[a.Field]
 	if !ok {
 		if write && tc.Stable[a.Field] && !x.isFreshObj(p, a.Obj) && !x.isSetup(tc) {
@@ -1663,6 +1682,7 @@ func (x *Exec) isFreshObj(p *Path, obj string) bool {
 // havocEverything: arbitrary code ran. Everything is forgotten except immutable/stable state and the state
 // guarded by locks this thread holds (lock discipline: nobody else can write it; no re-entrancy assumption).
 func (x *Exec) havocEverything(p *Path) {
+	defer x.reassumeRecvInv(p)
 	e := x.e
 	whole := map[string]string{}
 	type part struct{ key, obj, old, sort string }
